@@ -19,9 +19,9 @@ PID = 'C14'
 DRIVERS = ['hier']
 MODULE = 'PymtlVerif.Props.C14'
 THEOREMS = ['PV.C14.' + t for t in [
-  'bfs_indices', 'resolve_name', 'name_injective', 'record_determined', 'parent_longest_prefix',
+  'bfs_indices', 'resolve_name', 'name_injective', 'record_determined', 'parent_longest_prefix', 'root_parent',
   'field_name', 'level_counts_prefixes', 'level_counts_components', 'host_deepest_component',
-  'top_level_signal', 'int_index_is_slice', 'slice_of_slice', 'slice_record', 'elab_sound',
+  'top_level_signal', 'int_index_is_slice', 'slice_of_slice', 'slice_record', 'resolve_complete', 'elab_sound',
   'rebuild_same_names', 'render_injective', 'repr_unique']]
 TRUSTED = [
   'Model/Hier.lean follows NamedObject.__setattr_for_elaborate__, Signal.__getattr__/__getitem__, Component._construct (clk/reset), get_host_component as they are in /repo',
@@ -570,9 +570,21 @@ _counter = [0]
 def one_case(ck, case, verbose=False):
   _counter[0] += 1
   modname = f'c14m{os.getpid()}_{_counter[0]}'
-  real = run_real(ck, case, modname)
   replies = ck.drv('hier').batch(model_lines(case))
-  return finish_case(ck, case, real, replies, verbose)
+  try:
+    real = run_real(ck, case, modname)
+    return finish_case(ck, case, real, replies, verbose)
+  except InfraError:
+    raise
+  except Exception as e:
+    # the real code raised on a valid construction / a name that should evaluate: not a verdict of the
+    # machinery; report it as a failing input of the property (the traceback says where)
+    import traceback
+    ck.violation('real-code-raises', {'kind': 'real-code-raises', 'exception': type(e).__name__}, case,
+                 {'exception': f'{type(e).__name__}: {e}', 'traceback': traceback.format_exc()[-1500:],
+                  'model': replies[0][:500]})
+    if verbose: traceback.print_exc()
+    return False, 0, {'error': 'exception:' + type(e).__name__}
 
 def finish_case(ck, case, real, replies, verbose=False):
   ok = True
@@ -657,17 +669,101 @@ def render_check(ck):
     if rep != want: ck.disagreement('Model/Hier render≈python formatting', ['render', t], rep, want)
     if tokenise(render(t)) != t: raise InfraError(f'tokenise(render(t)) != t for {t}')
 
+def exhaustive_slice_case(n):
+  """every slice, int index and slice-of-slice of an n-bit wire and of an n-bit struct field"""
+  desc = ['comp', [['y', ['one', ['sig', 'wire', ['bits', n]]]],
+                   ['m', ['one', ['sig', 'in', ['struct', [['f', ['one', ['bits', n]]]]]]]]]]
+  accs = []
+  for base in ([['a', 'y']], [['a', 'm'], ['a', 'f']]):
+    for i in range(n): accs.append(base + [['i', i]])
+    for a in range(n):
+      for b in range(a + 1, n + 1):
+        accs.append(base + [['s', a, b]])
+        for i in range(b - a): accs.append(base + [['s', a, b], ['i', i]])
+        for c in range(b - a):
+          for d in range(c + 1, b - a + 1): accs.append(base + [['s', a, b], ['s', c, d]])
+  bad = []
+  for base in ([['a', 'y']], [['a', 'm'], ['a', 'f']]):
+    for a in range(n + 2):
+      for b in range(n + 2):
+        if not (a < b <= n): bad.append(base + [['s', a, b]])
+    for a in range(n):
+      for b in range(a + 1, n + 1):
+        bad.append(base + [['s', a, b], ['s', 0, b - a + 1]]); bad.append(base + [['s', a, b], ['i', b - a]])
+  half = len(accs) // 2
+  return {'desc': desc, 'acc_construct': accs[:half][::2] + accs[half:][1::2], 'acc_post': accs[:half][1::2] + accs[half:][::2],
+          'kind': 'ok', 'bad_exprs': bad}
+
+def list_shapes(n):
+  """all nested-list values with exactly n nodes (lists + leaves); leaves are numbered later"""
+  if n == 1: return [['leaf'], ['many', []]]
+  out = []
+  def compositions(total, acc):
+    if total == 0: yield list(acc); return
+    for k in range(1, total + 1):
+      acc.append(k); yield from compositions(total - k, acc); acc.pop()
+  for comp in compositions(n - 1, []):
+    def prod(i):
+      if i == len(comp): yield []; return
+      for x in list_shapes(comp[i]):
+        for rest in prod(i + 1): yield [x] + rest
+    for children in prod(0): out.append(['many', children])
+  return out
+
+def shape_case(shape, variant):
+  cnt = [0]
+  def conv(x):
+    if x[0] == 'leaf':
+      cnt[0] += 1
+      if variant == 0 or cnt[0] % 2: return ['one', ['sig', 'wire', ['bits', 2]]]
+      return ['one', ['ifc', [['v', ['one', ['sig', 'in', ['bits', 1]]]]]]]
+    return ['many', [conv(y) for y in x[1]]]
+  return {'desc': ['comp', [['x', conv(shape)]]], 'acc_construct': [], 'acc_post': [], 'kind': 'ok', 'bad_exprs': []}
+
+PROBE_SRC = '''from pymtl3 import *
+class C14ProbeTop( Component ):
+  def construct( s ):
+    s.x = [ None, Wire( Bits4 ) ]
+TOP = C14ProbeTop
+'''
+
+def probe_mixed_list(ck):
+  """Outside the generated space (ASSUMPTIONS): a list whose FIRST element is not a NamedObject / list is
+  not walked by the setattr hook, but `_collect_all_single` walks every list, so the Wire is collected
+  without a name. Enabled with C14_PROBE_MIXED=1 (reported to the maintainer of /verif as a candidate
+  finding; off by default because such lists are outside the property's quantifier as generated here)."""
+  path = os.path.join(ck.workdir, 'c14probe.py')
+  with open(path, 'w') as f: f.write(PROBE_SRC)
+  mod = load_module(path, 'c14probe')
+  top = mod.TOP(); top.elaborate()
+  case = {'probe': 'mixed-list', 'module': PROBE_SRC}
+  ck.count(case, True)
+  oracle(ck, case, top, top.get_all_object_filter(lambda x: True), 'probe: s.x = [ None, Wire(Bits4) ]')
+
 def run(ck):
   rng = ck.rng
   import gc
+  if os.environ.get('C14_PROBE_MIXED') == '1': probe_mixed_list(ck)
+  nex = 0
+  for n in range(1, (5 if ck.tier == 'quick' else 7) + 1):
+    c = exhaustive_slice_case(n)
+    ok, nd, real = one_case(ck, c); ck.count(c, stats(ck, c, real)); nex += 1
+  for n in range(1, (5 if ck.tier == 'quick' else 7) + 1):
+    for i, sh in enumerate(list_shapes(n)):
+      if sh[0] == 'leaf': continue
+      c = shape_case(sh, i % 2)
+      ok, nd, real = one_case(ck, c); ck.count(c, stats(ck, c, real)); nex += 1
+  ck.extra_cov['exhaustive_part'] = (f'every slice / int index / slice-of-slice (valid and invalid bounds) of n-bit signals and struct '
+                                     f'fields, n <= {5 if ck.tier == "quick" else 7}; every nested-list shape with <= '
+                                     f'{5 if ck.tier == "quick" else 7} nodes (lists + leaves, empty lists included) as a slot value: {nex} hierarchies')
   for c in CORPUS:
     c = json.loads(json.dumps(c))
     c['bad_exprs'] = []
     ok, nd, real = one_case(ck, c)
     ck.count(c, stats(ck, c, real))
   render_check(ck)
-  total = 220 if ck.tier == 'quick' else 6000
-  budget_s = 45 if ck.tier == 'quick' else 500
+  total = 1000 if ck.tier == 'quick' else 40000
+  budget_s = 45 if ck.tier == 'quick' else 480
   done = 0
   while done < total and ck.elapsed() < budget_s and len(ck.violations) < 20 and len(ck.breaks) < 20:
     case = gen_case(rng, big=(ck.tier == 'thorough' and rng.random() < 0.2))
@@ -680,10 +776,14 @@ def run(ck):
 
 def replay(ck, data):
   case = data['case']
-  if case and case[0:1] == ['render']:
+  if isinstance(case, list) and case[0:1] == ['render']:
     rep = ck.drv('hier').batch([leanio.line('hier', 'render', enc_toks(case[1]))])[0]
     print(f'model={rep}\nimpl =str {render(case[1])}')
     return 0 if rep == 'str ' + render(case[1]) else 1
+  if 'probe' in case:
+    probe_mixed_list(ck)
+    for v in ck.violations: print('VIOLATION', v.kind, v.detail)
+    return 1 if ck.violations else 0
   case.setdefault('bad_exprs', [])
   print('module written for the case:')
   print(open(write_module(ck.workdir, 'c14replay', case)).read())
